@@ -41,6 +41,11 @@ func c08Exec(c *core.Ctx, in c08Case) {
 
 // c08Raw is the case body; mk builds the literal case only when a violation is recorded.
 func c08Raw(c *core.Ctx, in c08Case, key [16]byte, payload []byte, mk func() c08Case) {
+	if c08Valid(in) {
+		c.Distinct(core.Hash64(in.Op, in.Alg, in.Bearer, in.Dir, key[:], in.Count, payload, in.Nil, in.Prefix), in.Alg >= 1 && len(payload) > 0)
+	} else {
+		c.Inc("guard_cases_with_invalid_parameters") // distinct by construction of the grid loops; trivial by the stated rule
+	}
 	key0 := key
 	orig := make([]byte, len(payload))
 	copy(orig, payload)
@@ -357,6 +362,6 @@ func init() {
 			return "all 256 algorithm identities x 256 bearers x 256 directions (2^24 parameter triples) through NASEncrypt and NASMacCalculate with payload lengths {0,1,5} and nil on the boundary rows; for the 4x32x2 valid triples every payload length 0..80 (thorough 0..300) and keys/counts from the deviation alphabets: length preservation, involution, prefix stability (every prefix length at the longest payload of each parameter tuple, boundary prefixes elsewhere), keystream independence across plaintexts, NEA0/NIA0 behaviour, errors leaving the payload untouched, 4-octet MACs, arguments unmodified, no panic, results independent of earlier calls with the same parameters and of what the caller does with earlier results. A case is distinct by (operation, algorithm, bearer, direction, key, count, payload)."
 		},
 		Assumptions: []string{"keys and counts from the structured alphabets of C06"},
-		Finish:      func(m *core.Merged, cov map[string]any) { cov["distinct_nontrivial"] = m.Counters["evaluations"] },
+		Finish:      finishDistinct("distinct by (operation, algorithm, bearer, direction, key, count, payload); non-trivial = valid parameters with a real algorithm (1..3) and a non-empty payload, i.e. the laws are actually exercised"),
 	})
 }
